@@ -41,7 +41,7 @@ from math import gcd
 
 from . import _rsys as G
 
-N_QUICK, N_THOROUGH = 320, 12000
+N_QUICK, N_THOROUGH = 320, 8000
 NAMES = ("admission", "balance_vectors", "linear_dependencies", "integration")
 
 FAMILIES = [
